@@ -209,15 +209,10 @@ class Engine:
         sch.append(Schema(f"fresh-dyn({r})", (Ref, Str), f3, trigger=("dyn_val", "dyn_has")))
         return sch
 
-    def alloc(self, p: Path, cls_term, kind="obj", name="new"):
-        r = T.fresh(name, Ref)
-        p.assume(r != NONE)
-        p.assume(r != T.QA_INVALID)
-        p.assume(T.cls_of(r) == cls_term)
-        for (o, _c, _k) in p.allocs:
-            p.assume(r != o)
+    def distinct_from_args(self, p: Path, r):
+        """a newly allocated object is none of the arguments and occurs in none of the argument sequences"""
         for v in self.args.values():
-            if isinstance(v, (VRef, VCallback)):
+            if isinstance(v, (VRef, VCallback, VAttrs)):
                 p.assume(r != v.term)
             elif isinstance(v, (VList, VSet, VDict)):
                 p.assume(r != v.ref)
@@ -225,6 +220,19 @@ class Engine:
                 p.assume(T.neg(T.Mem(v.seq, r)))
             elif isinstance(v, VSeq):
                 p.assume(T.neg(T.Mem(v.term, r)))
+            elif isinstance(v, VAdj):
+                p.assume(r != v.term)
+                p.assume(T.neg(T.Mem(T.adj_keys(v.term), r)))
+                p.schemas.append(Schema(f"fresh-adj({r})", (Ref,), lambda k, a=v.term, r=r: T.neg(T.Mem(T.adj_row(a, k), r))))
+
+    def alloc(self, p: Path, cls_term, kind="obj", name="new"):
+        r = T.fresh(name, Ref)
+        p.assume(r != NONE)
+        p.assume(r != T.QA_INVALID)
+        p.assume(T.cls_of(r) == cls_term)
+        for (o, _c, _k) in p.allocs:
+            p.assume(r != o)
+        self.distinct_from_args(p, r)
         p.schemas.extend(self.freshness_schemas(r, p.st, container=(kind == "container")))
         if kind == "container":
             p.st.write("selems", r, z3.Empty(T.SSeq))       # same default as contracts.OutcomeBuilder.fresh
@@ -394,15 +402,7 @@ class Engine:
             q.assume(T.cls_of(r) == clsterm)
             for (o2, _c, _k) in q.allocs:
                 q.assume(r != o2)
-            for v in self.args.values():
-                if isinstance(v, (VRef, VCallback, VAttrs)):
-                    q.assume(r != v.term)
-                elif isinstance(v, (VList, VSet, VDict)):
-                    q.assume(r != v.ref)
-                elif isinstance(v, VIter):
-                    q.assume(T.neg(T.Mem(v.seq, r)))
-                elif isinstance(v, VSeq):
-                    q.assume(T.neg(T.Mem(v.term, r)))
+            self.distinct_from_args(q, r)
             q.schemas.extend(self.freshness_schemas(r, call_state, container=(kind == "container")))
             q.allocs.append((r, clsterm, kind))
         for l in o.loose:
@@ -985,6 +985,7 @@ class Engine:
         L.phase = phase
         L.pghost = path.ghost
         L.path = path
+        L.ls = ls
         if phase in ("entry", "assume"):
             if not hasattr(self, "_loop_alloc_mark"):
                 self._loop_alloc_mark = {}
@@ -993,6 +994,19 @@ class Engine:
 
     def assume_inv(self, q: Path, inv: LoopInv, entry_st: State):
         q.env.update(inv.define)
+        if inv.supersedes:
+            q.schemas = [s_ for s_ in q.schemas if not getattr(s_, "_from_loop_inv", False)]
+        n0_ = len(q.schemas)
+        try:
+            self._assume_inv(q, inv, entry_st)
+        finally:
+            for s_ in q.schemas[n0_:]:
+                try:
+                    s_._from_loop_inv = True
+                except Exception:
+                    pass
+
+    def _assume_inv(self, q: Path, inv: LoopInv, entry_st: State):
         q.st = (inv.state if inv.state is not None else entry_st).copy()
         for l in inv.loose:
             old = entry_st._fs(l.fieldname)
